@@ -158,7 +158,8 @@ def gen_case(r, index, tier):
             m.pop("area_regions", None)
         ops.append({"op": "load_net", "net": nl, "die": die, "via": "tree", "ints": r.chance(0.3)})
         ops.append({"op": "load_die", "die": die, "via": "tree", "with_net": False})
-        ops.append({"op": "legal", "ratio": r.choice([2.0, 3.0])})
+        ops.append({"op": "legal", "ratio": r.choice([2.0, 3.0]),
+                    "solve": r.randint(1, 2) if r.chance(0.6 if tier == "thorough" else 0.25) else 0})
     else:  # pipeline: die + netlist -> initial allocation -> refine -> documents handed on through files
         die, ops = _gen_die_ops(r, True)
         ops.append({"op": "split", "r": r.choice([1.5, 2, 3]), "n": r.randint(1, 10)})
@@ -1139,6 +1140,24 @@ def _op_legal(ctx, o):
     except Exception as e:
         ctx.v("producer raised", dict(key, exc=type(e).__name__, stage="model"), {"exc": repr(e)[:300]})
         return "producer raised"
+    solved = 0
+    if o.get("solve"):
+        # the legaliser's own loop: build, solve, re-read its own netlist, advance the annealing time
+        try:
+            for it in range(o["solve"]):
+                model.set_fixed_t(it + 1)
+                model.build_model(False, 1)
+                model.solve(False, False, 1)
+                solved += 1
+                model.set_ml(LF.netlist_to_utils(model.get_netlist())[0])
+                model.time_advance(1)
+        except Exception as e:
+            if solved == 0 and "get_netlist" not in repr(e):
+                ctx.probe("legal_solve_failed_" + type(e).__name__)
+                return "skipped(solver failed: %s)" % type(e).__name__
+            ctx.v("document rejected by its reader", dict(key, exc=type(e).__name__, after="solve"), {"exc": repr(e)[:300]})
+            return "rejected"
+        ctx.probe("legal_model_solved")
     ctx.docs += 1
     try:
         out = model.get_netlist()
@@ -1150,6 +1169,13 @@ def _op_legal(ctx, o):
         ctx.v("producing a document altered the object", key, {})
         return "object altered"
     src = _unordered_net(sem.netlist_sem(net, per_region=False, flip=False, aspect=False, centers=False))
+    if solved:
+        # the design the solved model holds: rectangles as the model evaluates them now
+        for md in src["modules"]:
+            i = model.og_names.index(md["name"])
+            M = model.M[i]
+            md["rects"] = sorted(([float(M.x[j].evaluate()), float(M.y[j].evaluate()), float(M.w[j].evaluate()),
+                                   float(M.h[j].evaluate()), "_"] for j in range(len(M.x))), key=repr)
     got = _unordered_net(sem.netlist_sem(out, per_region=False, flip=False, aspect=False, centers=False))
     got2 = _unordered_net(sem.netlist_sem(out2, per_region=False, flip=False, aspect=False, centers=False))
     if canon(got) != canon(got2):
